@@ -163,11 +163,14 @@ PROPS = {
         ],
     },
     'C15': {
-        'units': [],
+        'units': ['stats'],
         'kani_quick': ['utils_get_mean_exact_len3', 'utils_get_mean_exact_len1_and_empty', 'block_base_reward_halving', 'tx_is_coinbase_predicate'],
         'kani_thorough': [],
         'trusted': [
-            'report rendering print_* (f64 formatting, format!) -- UNCHECKED',
+            'report rendering print_* (f64 formatting, format!) and the divisions of the averages -- UNCHECKED',
+            'EvaluatedTx::is_coinbase contract: proved by Kani on the real body; EvaluatedTx::to_bytes length == witness-stripped size (unit proto)',
+            'std HashMap<ScriptPattern,_> contains_key/insert/entry().or_insert() == Map operations on the pattern value (shim in unit stats)',
+            'input well-formedness: counts equal lengths, a coinbase has an output, figures stay below 2^64 (no_overflow), height < 13 440 000',
             'get_base_reward for heights >= 64*210000 = 13 440 000 overflows the shift: documented precondition (outside the property\'s "heights up to millions")',
         ],
     },
